@@ -190,12 +190,18 @@ Proof.
   destruct a; try discriminate. cbn [apply_enum_fills]. f_equal. now apply IH.
 Qed.
 
+Lemma default_as_fill_create s : forall acts, all_create acts -> map (default_as_fill s) acts = acts.
+Proof.
+  induction acts as [|a r IH]; intro H; [reflexivity|]. apply all_create_cons in H. destruct H as [Ha Hr].
+  destruct a; try discriminate. cbn [map default_as_fill]. f_equal. now apply IH.
+Qed.
+
 Lemma filled_actions_creates acts s : all_create acts -> filled_actions (mkPlan "" None None 0 acts) s = acts.
 Proof.
   intro H. unfold filled_actions, revision_fill. cbn [p_actions].
   rewrite (refuses_creates _ H), (collect_fills_creates _ _ H). cbn zeta. cbv iota.
   unfold find_missing_enum_fill_with. cbn [p_actions].
-  rewrite (find_missing_enum_creates _ _ _ H). now apply apply_enum_fills_creates.
+  rewrite (find_missing_enum_creates _ _ _ H), (apply_enum_fills_creates _ _ _ H). now apply default_as_fill_create.
 Qed.
 
 (* ---------- the plan from an empty baseline ---------- *)
